@@ -120,9 +120,43 @@ def pat_canon(p, env, scr=None):
     return pat_src(p)
 
 
+_CMP_REL = {('Ordering::Less',): '(%(a)s < %(b)s)', ('Ordering::Greater',): '(%(b)s < %(a)s)',
+            ('Ordering::Equal',): '(%(a)s == %(b)s)',
+            ('Ordering::Equal', 'Ordering::Less'): '(%(a)s <= %(b)s)',
+            ('Ordering::Equal', 'Ordering::Greater'): '(%(b)s <= %(a)s)',
+            ('Ordering::Greater', 'Ordering::Less'): '(%(a)s != %(b)s)'}
+
+
+def _cmp_relation(scr, txt):
+    """`a.cmp(b) is Less` is `a < b` (Ord::cmp; and `a.partial_cmp(b) is Some(Less)`)"""
+    m = re.fullmatch(r'(.+)\.(cmp|partial_cmp)\((.+)\)', scr)
+    if not m or not _balanced(m.group(1)) or not _balanced(m.group(3)):
+        return None
+    t = txt
+    if m.group(2) == 'partial_cmp':
+        mm = re.fullmatch(r'Some\((.+)\)', t)
+        if not mm:
+            return None
+        t = mm.group(1)
+    key = tuple(sorted(x.strip() for x in t.split('|')))
+    f = _CMP_REL.get(key)
+    if f is None:
+        return None
+    a, b = m.group(1), m.group(3)
+    r = f % {'a': a, 'b': b}
+    # equality / inequality operands are spelled in sorted order like every == / !=
+    mm = re.fullmatch(r'\((.+) (==|!=) (.+)\)', r)
+    if mm and mm.group(3) < mm.group(1) and _balanced(mm.group(1)):
+        r = '(%s %s %s)' % (mm.group(3), mm.group(2), mm.group(1))
+    return r
+
+
 def _arm_cond(scr, pat, env):
     """predicate string of `scr matches pat` (Option patterns become VALID tests)."""
     txt = pat_canon(pat, env, scr)
+    rel = _cmp_relation(scr, txt)
+    if rel is not None:
+        return rel
     if txt == 'Some(_)':
         return 'VALID(%s)' % scr
     if txt in ('option::None', 'Option::None', 'v1::None', 'None') or txt.endswith('::None'):
@@ -247,7 +281,7 @@ def canon(e, env):
             return 'Some(%s)' % canon(e['ch'][1], env)
         if callee_is(e, 'IsNone::none'):
             return 'NULL'
-        name = canon(c, env)
+        name = 'Self' if e.get('callee_res') == 'SelfCtor' else canon(c, env)
         a_ = [canon(x, env) for x in e['ch'][1:]]
         if not a_ and callee_is(e, 'TimeUnitTrait::unit') and e.get('targs'):
             # a nullary associated function whose meaning is its Self type
